@@ -2204,3 +2204,174 @@ Proof.
       * pinj Hstep. repeat split; assumption.
   - pinj Hstep. intros Hne. unfold write_packet_op in *. destruct (po_res (emit_packet pk)); cbn in *; [congruence|split; reflexivity|split; reflexivity].
 Qed.
+
+(* ================= Part 6: the ghost packets and the bytes ================= *)
+
+(* the four header bytes of a serialised packet, read back: sync byte, PID (13 bits), payload_unit_start_indicator,
+   adaptation_field_control, continuity_counter (4 bits) *)
+Lemma b2z_01 b : 0 <= Z.b2z b <= 1. Proof. destruct b; cbn; lia. Qed.
+
+Lemma header_bytes h rest :
+  exists b1 b2 b3,
+    bytes_of_items ([wu8 syncByte] ++ enc_packet_header h ++ rest) = syncByte :: b1 :: b2 :: b3 :: bytes_of_items rest /\
+    (b1 mod 32) * 256 + b2 = PacketHeader_PID h mod 8192 /\
+    (b1 / 64) mod 2 = Z.b2z (PacketHeader_PayloadUnitStartIndicator h) /\
+    (b3 / 32) mod 2 = Z.b2z (PacketHeader_HasAdaptationField h) /\
+    (b3 / 16) mod 2 = Z.b2z (PacketHeader_HasPayload h) /\
+    b3 mod 16 = PacketHeader_ContinuityCounter h mod 16.
+Proof.
+  rewrite app_assoc. rewrite (bytes_of_items_app ([wu8 syncByte] ++ enc_packet_header h) rest 4)
+    by (rewrite ibz_app, enc_packet_header_bits; reflexivity).
+  rewrite chunks_concat by (unfold enc_packet_header, wu8; repeat constructor).
+  unfold enc_packet_header, wu8, syncByte.
+  cbn [app items_bits flat_map item_bits].
+  set (pid := PacketHeader_PID h). set (cc := PacketHeader_ContinuityCounter h). set (tsc := PacketHeader_TransportScramblingControl h).
+  cbn [bits_of Z.of_nat Pos.of_succ_nat Pos.succ app].
+  cbn [bytes_of_bits].
+  pose proof (Z_of_bits_of_mod 13 pid) as Hpid. pose proof (Z_of_bits_of_mod 4 cc) as Hcc.
+  cbn [bits_of Z.of_nat Pos.of_succ_nat Pos.succ] in Hpid, Hcc.
+  unfold Z_of_bits in *. cbn [Z_of_bits_acc] in *.
+  change (2 ^ Z.of_nat 13) with 8192 in Hpid. change (2 ^ Z.of_nat 4) with 16 in Hcc.
+  eexists _, _, _. split; [reflexivity|].
+  repeat match goal with |- context [Z.b2z ?b] => let H := fresh "Hb" in pose proof (b2z_01 b) as H; generalize dependent (Z.b2z b); intros end.
+  Ltac Zify.zify_post_hook ::= Z.div_mod_to_equations.
+  repeat split; lia.
+Qed.
+
+Lemma enc_packet_shape p target its : enc_packet p target = Ok its ->
+  exists rest, its = [wu8 syncByte] ++ enc_packet_header (Packet_Header p) ++ rest.
+Proof.
+  unfold enc_packet. intros H.
+  destruct (PacketHeader_HasAdaptationField (Packet_Header p)).
+  - destruct (Packet_AdaptationField p) as [af|]; cbn [need res_bind] in H; [|discriminate].
+    destruct (PacketAdaptationField_StuffingLength af <? 0); cbn [res_bind] in H; [discriminate|].
+    destruct (_ <? _) in H; [discriminate|].
+    destruct (enc_adaptation_field af) as [[afi afn]| |]; cbn [res_bind] in H; try discriminate.
+    destruct (_ <? _) in H; [discriminate|]. okinj H. eexists; reflexivity.
+  - cbn [res_bind] in H. destruct (_ <? _) in H; [discriminate|]. cbn [res_bind] in H.
+    destruct (_ <? _) in H; [discriminate|]. okinj H. eexists; reflexivity.
+Qed.
+
+(* every packet the model emits: its first four bytes are the sync byte and the header fields of the Packet record
+   (PID in 13 bits, continuity_counter in 4 bits) *)
+Theorem packet_header_readback p target its : enc_packet p target = Ok its ->
+  exists b1 b2 b3 tail,
+    bytes_of_items its = syncByte :: b1 :: b2 :: b3 :: tail /\
+    (b1 mod 32) * 256 + b2 = pkt_pid p mod 8192 /\
+    (b1 / 64) mod 2 = Z.b2z (PacketHeader_PayloadUnitStartIndicator (Packet_Header p)) /\
+    (b3 / 16) mod 2 = Z.b2z (pkt_has_payload p) /\
+    b3 mod 16 = pkt_cc p.
+Proof.
+  intros H. destruct (enc_packet_shape _ _ _ H) as [rest ->].
+  destruct (header_bytes (Packet_Header p) rest) as (b1 & b2 & b3 & E & H1 & H2 & _ & H4 & H5).
+  exists b1, b2, b3, (bytes_of_items rest). repeat split; assumption.
+Qed.
+
+(* ... and the groups a call hands to the writer are the serialisations of its ghost packets, in order *)
+Definition pkt_bytes (p : Packet) : list Z :=
+  match enc_packet p C_MpegTsPacketSize with Ok its => bytes_of_items its | _ => [] end.
+
+Definition part_tied (p : part) : Prop :=
+  map (@concat Z) (pa_groups p) = map pkt_bytes (pa_pkts p) /\
+  Forall (fun q => exists its, enc_packet q C_MpegTsPacketSize = Ok its) (pa_pkts p).
+
+Lemma part_tied_nil r n : part_tied (mk_part r n [] []).
+Proof. split; [reflexivity|constructor]. Qed.
+
+Lemma part_tied_app a b : part_tied a -> part_tied b -> part_tied (part_app a b).
+Proof.
+  intros [A1 A2] [B1 B2]. split; cbn [part_app pa_groups pa_pkts].
+  - rewrite !map_app, A1, B1. reflexivity.
+  - apply Forall_app. split; assumption.
+Qed.
+
+Lemma emit_packet_tied p : match po_res (emit_packet p) with
+                           | Ok _ => po_pkt (emit_packet p) = [p] /\ concat (po_group (emit_packet p)) = pkt_bytes p /\
+                                     exists its, enc_packet p C_MpegTsPacketSize = Ok its
+                           | _ => po_pkt (emit_packet p) = [] /\ po_group (emit_packet p) = []
+                           end.
+Proof.
+  unfold emit_packet, pkt_bytes. destruct (enc_packet p C_MpegTsPacketSize) as [its|c|] eqn:E; cbn [po_res po_group po_pkt];
+    try (split; reflexivity).
+  split; [reflexivity|]. split; [reflexivity|]. exists its. reflexivity.
+Qed.
+
+Lemma write_packet_tied p bs : write_packet p C_MpegTsPacketSize = Ok bs ->
+  bs = pkt_bytes p /\ exists its, enc_packet p C_MpegTsPacketSize = Ok its.
+Proof.
+  unfold write_packet, pkt_bytes. destruct (enc_packet p C_MpegTsPacketSize) as [its|c|]; cbn [res_map]; try discriminate.
+  intros H. apply ok_inj in H. subst. split; [reflexivity|]. exists its. reflexivity.
+Qed.
+
+Lemma write_tables_tied s : part_tied (snd (write_tables s)).
+Proof.
+  unfold write_tables, generate_pat, generate_pmt.
+  destruct (next_version (ms_pat_version s) (ms_pm_updated s)) as [patv pver].
+  destruct (write_psi_data (psi_of_section (pat_section pver))) as [ppay|c|]; cbn [snd]; try apply part_tied_nil.
+  destruct (write_packet _ _) as [bpat|c|] eqn:Ewp; cbn [snd]; try apply part_tied_nil.
+  destruct (negb _); cbn [snd]; try apply part_tied_nil.
+  destruct (_ >? _); cbn [snd]; try apply part_tied_nil.
+  destruct (next_version _ _) as [pmtv mver].
+  destruct (write_psi_data _) as [mpay|c|]; cbn [snd]; try apply part_tied_nil.
+  destruct (write_packet (table_packet C_pmtStartPID _ _) _) as [bpmt|c|] eqn:Ewm; cbn [snd]; try apply part_tied_nil.
+  destruct (write_packet_tied _ _ Ewp) as [E1 X1]. destruct (write_packet_tied _ _ Ewm) as [E2 X2].
+  split; cbn [pa_groups pa_pkts map concat].
+  - rewrite !app_nil_r, E1, E2. reflexivity.
+  - constructor; [exact X1|constructor; [exact X2|constructor]].
+Qed.
+
+Lemma retransmit_tied s f : part_tied (snd (retransmit_tables s f)).
+Proof.
+  unfold retransmit_tables. destruct (negb f && _); cbn [snd]; [apply part_tied_nil|].
+  pose proof (write_tables_tied (set_retransmit s (ms_retransmit s + 1))) as W.
+  destruct (write_tables _) as [s2 pt]. cbn [snd] in *. destruct pt as [rt nt gt pkt]. destruct rt; cbn [snd]; exact W.
+Qed.
+
+Lemma wd_loop_tied fuel : forall pid h cc af ps left, part_tied (lo_part (wd_loop fuel pid h cc af ps left)).
+Proof.
+  induction fuel as [|fuel IH]; intros pid h cc af ps left; cbn [wd_loop].
+  - destruct left; apply part_tied_nil.
+  - destruct left as [|b0 left']; [apply part_tied_nil|].
+    destruct (ps && _).
+    + match goal with |- context [emit_packet ?p] => pose proof (emit_packet_tied p) as W; destruct (po_res (emit_packet p)) end;
+        try apply part_tied_nil.
+      destruct W as (Wp & Wg & Wx). cbn [lo_cons lo_part]. destruct (IH pid h cc None ps (b0 :: left')) as [I1 I2].
+      split; cbn [pa_groups pa_pkts map]; rewrite Wp; cbn [app map].
+      * rewrite Wg, I1. reflexivity.
+      * constructor; assumption.
+    + destruct (write_pes_data _ _ _ _) as [[[items ntot] npayload]|c|]; try apply part_tied_nil.
+      match goal with |- context [emit_packet ?p] => pose proof (emit_packet_tied p) as W; destruct (po_res (emit_packet p)) end;
+        try apply part_tied_nil.
+      destruct W as (Wp & Wg & Wx). cbn [lo_cons lo_part].
+      destruct (IH pid h (wrappingCounter_inc_st cc) None false (skipn (Z.to_nat npayload) (b0 :: left'))) as [I1 I2].
+      split; cbn [pa_groups pa_pkts map]; rewrite Wp; cbn [app map].
+      * rewrite Wg, I1. reflexivity.
+      * constructor; assumption.
+Qed.
+
+Lemma write_data_tied s d : part_tied (snd (write_data s d)).
+Proof.
+  unfold write_data. destruct (es_find _ _) as [ctx|]; cbn [snd]; [|apply part_tied_nil].
+  pose proof (retransmit_tied s (af_rai (MuxerData_AdaptationField d) && (MuxerData_PID d =? ms_pcr_pid s))) as W.
+  destruct (retransmit_tables _ _) as [s1 pt]. cbn [snd] in W. destruct pt as [rt nt gt pkt]. destruct rt as [u|c|]; cbn [snd]; try exact W.
+  destruct u.
+  destruct (MuxerData_PES d) as [pes|]; cbn [snd]; [|apply part_tied_app; [exact W|apply part_tied_nil]].
+  destruct (PESData_Data pes) as [|b0 data']; cbn [snd]; [exact W|].
+  destruct (PESData_Header pes) as [h0|]; cbn [snd]; [|apply part_tied_app; [exact W|apply part_tied_nil]].
+  apply part_tied_app; [exact W|apply wd_loop_tied].
+Qed.
+
+(* every call: what it hands to the writer, group by group, is the serialisation of its ghost packets *)
+Theorem step_part_tied s o : part_tied (snd (mux_step_part s o)).
+Proof.
+  destruct o as [es|q|q| |d|pk]; cbn [mux_step_part].
+  - destruct (add_es s es). apply part_tied_nil.
+  - destruct (remove_es s q). apply part_tied_nil.
+  - apply part_tied_nil.
+  - apply write_tables_tied.
+  - apply write_data_tied.
+  - cbn [snd]. unfold write_packet_op. pose proof (emit_packet_tied pk) as W. destruct (po_res (emit_packet pk)); try apply part_tied_nil.
+    destruct W as (Wp & Wg & Wx). split; cbn [pa_groups pa_pkts map]; rewrite Wp; cbn [map].
+    + rewrite Wg. reflexivity.
+    + constructor; [exact Wx|constructor].
+Qed.
